@@ -6,7 +6,9 @@ use crate::scen::common::*;
 use crate::scen::qrig::*;
 use crate::tport::{ModelTransport, TState};
 use crate::Ctx;
+use std::cell::RefCell;
 use std::panic::{catch_unwind, AssertUnwindSafe};
+use std::rc::Rc;
 use virtio_drivers::device::input::VirtIOInput;
 use virtio_drivers::queue::{OwningQueue, VirtQueue};
 use virtio_drivers::transport::DeviceType;
@@ -137,18 +139,211 @@ fn owning<const N: usize, const B: usize>(ctx: &mut Ctx, flags: u8, nevents: usi
     ledger_line(ctx);
 }
 
+// ------------------------------------------------------------------------------------------------
+// VirtIOInput: the driver posts and re-posts its 32 event buffers by hand (no OwningQueue). Every `new`, every
+// pop_pending_event and every query_config_select is one trace line for Model/Input.v (kinds 1960..1962, decoded by
+// Extract/InputIO.v) plus one monitor line (1971 / 1970) stating what the implementation was seen to do.
+thread_local! {
+    /// while VirtIOInput::new runs: the transport state (the event queue's address is learnt from it as soon as the queue is
+    /// registered) and the suppression words (used flags, avail_event) the device writes at that moment
+    static IN_LATE: RefCell<Option<(Rc<RefCell<TState>>, u16, u16)>> = RefCell::new(None);
+}
+
+/// observer for the input scenarios: binds CURQ to the event queue at the first store after its registration (the device
+/// sets its suppression words then), and otherwise behaves like the queue rig's observer
+fn in_observer(e: virtio_drivers::verif::Event) {
+    if CURQ.with(|c| c.borrow().size) == 0 {
+        let late = IN_LATE.with(|l| l.borrow().as_ref().map(|(st, uf, ae)| { let s = st.borrow(); (s.queues[0], *uf, *ae) }));
+        if let Some((qi, uf, ae)) = late { if qi.set {
+            let a = QAddr { desc: qi.desc, drv: qi.drv, dev: qi.dev, size: 32 };
+            CURQ.with(|c| *c.borrow_mut() = a);
+            let _ = hal::dev_write_u16(a.dev, uf);
+            let _ = hal::dev_write_u16(a.dev + 4 + 8 * 32, ae);
+        } }
+    }
+    observer(e);
+}
+
+/// queue effects as Extract/InputIO.enc_ievs expects them: queue events as usual, notify with its queue, DRIVER_OK as [12]
+fn enc_in_events(evs: &[Ev]) -> Vec<u128> {
+    let mut o = vec![];
+    for e in evs {
+        match e {
+            Ev::Notify(q) => o.extend([11, *q as u128]),
+            Ev::SetStatus(s) if s & 4 != 0 => o.push(12),
+            Ev::Share { .. } | Ev::Unshare { .. } | Ev::StoreDesc { .. } | Ev::Store { what: 1..=4, .. } | Ev::Fence => o.extend(enc_qevents(std::slice::from_ref(e), 0)),
+            _ => {}
+        }
+    }
+    o
+}
+
+/// VirtIO 1.2, 2.7.10 (written from the specification, not from the code): must the device be told about the entries
+/// published while the available index moved from `old` to `new`?
+fn spec_must_notify(event_idx: bool, ae: u16, uf: u16, new: u16, old: u16) -> bool {
+    if event_idx { new.wrapping_sub(ae).wrapping_sub(1) < new.wrapping_sub(old) } else { uf & 1 == 0 }
+}
+
+pub struct InRig {
+    pub input: VirtIOInput<LedgerHal, ModelTransport>,
+    pub st: Rc<RefCell<TState>>,
+    pub a: QAddr,
+    pub event_idx: bool,
+    /// address of event_buf[0] on the driver side (the array is contiguous: event_buf[i] lives at base + 8 i)
+    pub base: usize,
+    /// completions consumed so far, as a 16-bit index
+    pub last_used: u16,
+}
+pub enum InPoll { Event([u8; 8]), Nothing, Panicked }
+
+impl InRig {
+    /// runs VirtIOInput::new on a device with the given features; `uf`, `ae`: the suppression words the device sets as soon
+    /// as the event queue exists. Writes lines 1960 and 1971. None if the constructor did not return a driver.
+    pub fn new(ctx: &mut Ctx, features: u64, uf: u16, ae: u16) -> Option<InRig> {
+        hal::reset();
+        BUFIDS.with(|b| b.borrow_mut().clear());
+        CURQ.with(|c| *c.borrow_mut() = QAddr::default());
+        virtio_drivers::verif::set_observer(Some(in_observer));
+        let mut ts = TState::new(DeviceType::Input, features, 2, 32);
+        ts.config = vec![0u8; 256];
+        let (t, st) = ModelTransport::new(ts);
+        IN_LATE.with(|l| *l.borrow_mut() = Some((st.clone(), uf, ae)));
+        hal::take_log();
+        let r = catch_unwind(AssertUnwindSafe(move || VirtIOInput::<LedgerHal, ModelTransport>::new(t)));
+        IN_LATE.with(|l| *l.borrow_mut() = None);
+        let evs = hal::take_log();
+        let neg = st.borrow().driver_features;
+        let (indirect, event_idx) = (neg & (1 << 28) != 0, neg & (1 << 29) != 0);
+        // identities: the 8-byte buffers shared by new are event_buf[0..32), a contiguous array
+        let shares: Vec<(usize, u64)> = evs.iter().filter_map(|e| if let Ev::Share { vaddr, len: 8, paddr, .. } = e { Some((*vaddr, *paddr)) } else { None }).collect();
+        let base = shares.iter().map(|s| s.0).min().unwrap_or(0);
+        for i in 0..32usize { BUFIDS.with(|m| m.borrow_mut().insert(base + 8 * i, i as u64)); }
+        let qi = st.borrow().queues[0];
+        let a = QAddr { desc: qi.desc, drv: qi.drv, dev: qi.dev, size: 32 };
+        let (ae_seen, uf_seen) = if qi.set { (hal::dev_read_u16(a.dev + 4 + 8 * 32).unwrap_or(0), hal::dev_read_u16(a.dev).unwrap_or(0)) } else { (0, 0) };
+        let mut ins = vec![indirect as u128, event_idx as u128, ae_seen as u128, uf_seen as u128];
+        ins.extend(shares.iter().map(|s| s.1 as u128));
+        let mut outs: Vec<u128> = match &r { Ok(Ok(_)) => vec![0, 0], Ok(Err(e)) => vec![1, err_code(e)], Err(_) => vec![2, 0] };
+        outs.extend(enc_in_events(&evs));
+        ctx.tr.line(1960, &ins, &outs);
+        // monitor 1971: what the device finds after new
+        let class: u128 = match &r { Ok(Ok(_)) => 0, Ok(Err(_)) => 1, Err(_) => 2 };
+        let (mut posted, mut ring_ok, mut descs_ok) = (0u128, 0u128, 0u128);
+        if qi.set {
+            posted = hal::dev_read_u16(a.drv + 2).unwrap_or(0) as u128;
+            ring_ok = (0..32u64).all(|i| hal::dev_read_u16(a.drv + 4 + 2 * i).ok() == Some(i as u16)) as u128;
+            for i in 0..32usize {
+                if let Some((addr, len, flags, _)) = read_desc(&a, i) {
+                    if len == 8 && flags & 7 == 2 && hal::share_at(addr) == Some((base + 8 * i, 8, 1)) { descs_ok += 1; }
+                }
+            }
+        }
+        let ok_pos = evs.iter().position(|e| matches!(e, Ev::SetStatus(s) if s & 4 != 0)).unwrap_or(evs.len());
+        let early = evs[..ok_pos].iter().filter(|e| matches!(e, Ev::Notify(_))).count() as u128;
+        let n0 = evs.iter().filter(|e| matches!(e, Ev::Notify(0))).count() as u128;
+        let nother = evs.iter().filter(|e| matches!(e, Ev::Notify(q) if *q != 0)).count() as u128;
+        let must = spec_must_notify(event_idx, ae_seen, uf_seen, posted as u16, 0) as u128;
+        ctx.tr.line(1971, &[class, posted, ring_ok, descs_ok, early, nother, n0, must], &[1]);
+        ctx.tr.note(if n0 > 0 { "input_new_notified" } else { "input_new_suppressed" });
+        match r { Ok(Ok(input)) => Some(InRig { input, st, a, event_idx, base, last_used: 0 }), _ => { virtio_drivers::verif::set_observer(None); None } }
+    }
+
+    /// one pop_pending_event against whatever the device has put into the used ring: lines 1961 and 1970
+    pub fn poll(&mut self, ctx: &mut Ctx) -> InPoll {
+        let a = self.a;
+        let ui = hal::dev_read_u16(a.dev + 2).unwrap();
+        let slot = (self.last_used as usize) & 31;
+        let uid = hal::dev_read_u32(a.dev + 4 + 8 * slot as u64).unwrap();
+        let ulen = hal::dev_read_u32(a.dev + 8 + 8 * slot as u64).unwrap();
+        let ae = hal::dev_read_u16(a.dev + 4 + 8 * 32).unwrap();
+        let uf = hal::dev_read_u16(a.dev).unwrap();
+        let avail_before = hal::dev_read_u16(a.drv + 2).unwrap();
+        let tok = (uid & 0xffff) as usize;
+        let pending = ui != self.last_used;
+        // what event_buf[token] will hold after the copy-back: the contents of the device-side buffer now
+        let wr: Vec<u8> = if pending && tok < 32 { read_desc(&a, tok).and_then(|d| hal::dev_read(d.0, 8).ok()).unwrap_or_default() } else { vec![] };
+        hal::take_log();
+        let r = { let input = &mut self.input; catch_unwind(AssertUnwindSafe(move || input.pop_pending_event())) };
+        let evs = hal::take_log();
+        let addr = evs.iter().find_map(|e| if let Ev::Share { paddr, .. } = e { Some(*paddr) } else { None }).unwrap_or(0);
+        let mut ins = vec![ui as u128, uid as u128, ui as u128, uid as u128, ulen as u128, addr as u128, ae as u128, uf as u128];
+        ins.extend(wr.iter().map(|b| *b as u128));
+        let mut outs: Vec<u128> = match &r {
+            Ok(Some(ev)) => vec![0, 1, ev.event_type as u128, ev.code as u128, ev.value as u128],
+            Ok(None) => vec![0, 0, 0, 0, 0],
+            Err(_) => vec![2, 0, 0, 0, 0] };
+        outs.extend(enc_in_events(&evs));
+        ctx.tr.line(1961, &ins, &outs);
+        // monitor 1970
+        let avail_after = hal::dev_read_u16(a.drv + 2).unwrap();
+        let adelta = avail_after.wrapping_sub(avail_before);
+        let head = hal::dev_read_u16(a.drv + 4 + 2 * ((avail_after.wrapping_sub(1) as u64) & 31)).unwrap();
+        let (dlen, dw, disbuf) = match read_desc(&a, head as usize & 31) {
+            Some((daddr, len, flags, _)) => (len as u128, (flags & 7 == 2) as u128, (tok < 32 && hal::share_at(daddr) == Some((self.base + 8 * tok, 8, 1))) as u128),
+            None => (0, 0, 0) };
+        let n0 = evs.iter().filter(|e| matches!(e, Ev::Notify(0))).count() as u128;
+        let nother = evs.iter().filter(|e| matches!(e, Ev::Notify(q) if *q != 0)).count() as u128;
+        let shares = evs.iter().filter(|e| matches!(e, Ev::Share { .. })).count() as u128;
+        let unshares = evs.iter().filter(|e| matches!(e, Ev::Unshare { .. })).count() as u128;
+        let must = spec_must_notify(self.event_idx, ae, uf, avail_after, avail_before) as u128;
+        let (class, has) = match &r { Ok(Some(_)) => (0u128, 1u128), Ok(None) => (0, 0), Err(_) => (2, 0) };
+        ctx.tr.line(1970, &[pending as u128, (tok < 32) as u128, class, has, adelta as u128, head as u128, tok as u128, dlen, dw, disbuf,
+                            n0, nother, must, shares, unshares, ulen as u128], &[1]);
+        if pending && tok < 32 && has == 1 { ctx.tr.note(if n0 > 0 { "input_repost_notified" } else { "input_repost_suppressed" }); }
+        match r {
+            Ok(Some(ev)) => {
+                self.last_used = self.last_used.wrapping_add(1);
+                let mut b = [0u8; 8];
+                b[0..2].copy_from_slice(&ev.event_type.to_le_bytes()); b[2..4].copy_from_slice(&ev.code.to_le_bytes()); b[4..8].copy_from_slice(&ev.value.to_le_bytes());
+                InPoll::Event(b)
+            }
+            Ok(None) => InPoll::Nothing,
+            Err(_) => InPoll::Panicked,
+        }
+    }
+
+    /// query_config_select with a size and data the device chooses: line 1962
+    pub fn query(&mut self, ctx: &mut Ctx) {
+        use virtio_drivers::device::input::InputConfigSelect as Sel;
+        let size = match ctx.rng.below(4) { 0 => *ctx.rng.pick(&[0u8, 1, 8, 20, 127, 128, 129, 247, 248, 249, 255]), _ => ctx.rng.next() as u8 };
+        let data = ctx.rng.bytes(248);
+        { let mut s = self.st.borrow_mut(); s.config[2] = size; s.config[8..256].copy_from_slice(&data); }
+        let out_len = match ctx.rng.below(4) { 0 => *ctx.rng.pick(&[0usize, 1, 8, 20, 128, 129, 247, 248, 249, 255, 256, 300]), _ => ctx.rng.below(301) as usize };
+        let (sel, selv) = *ctx.rng.pick(&[(Sel::IdName, 1u8), (Sel::IdSerial, 2), (Sel::IdDevids, 3), (Sel::PropBits, 0x10), (Sel::EvBits, 0x11), (Sel::AbsInfo, 0x12)]);
+        let subsel = ctx.rng.next() as u8;
+        let mut out = vec![0xeeu8; out_len];
+        hal::take_log();
+        let r = { let input = &mut self.input; let out = &mut out; catch_unwind(AssertUnwindSafe(move || input.query_config_select(sel, subsel, out))) };
+        let evs = hal::take_log();
+        let cfg = self.st.borrow().config.clone();
+        let mut ins = vec![selv as u128, subsel as u128, out_len as u128, 1, 1, size as u128];
+        for i in 0..(size as usize).min(out_len) { ins.push(if 8 + i < cfg.len() { cfg[8 + i] as u128 } else { 256 }); }
+        let mut outs: Vec<u128> = match &r { Ok(Ok(sz)) => vec![0, *sz as u128, out_len as u128], Ok(Err(e)) => vec![1, err_code(e), 0], Err(_) => vec![2, 0, 0] };
+        if let Ok(Ok(_)) = &r { outs.extend(out.iter().map(|b| *b as u128)); }
+        for e in &evs { match e {
+            Ev::WriteConfig { off, .. } => outs.extend([20, *off as u128, cfg.get(*off).copied().unwrap_or(0) as u128]),
+            Ev::ReadConfig { off, .. } => outs.extend([21, *off as u128]),
+            _ => {} } }
+        ctx.tr.line(1962, &ins, &outs);
+        ctx.tr.note(match &r { Ok(Ok(_)) => "input_query_ok", Ok(Err(_)) => "input_query_refused", Err(_) => "input_query_panic" });
+    }
+
+    pub fn finish(self, ctx: &mut Ctx) {
+        let _ = catch_unwind(AssertUnwindSafe(move || drop(self.input)));
+        virtio_drivers::verif::set_observer(None);
+        CURQ.with(|c| *c.borrow_mut() = QAddr::default());
+        ledger_line(ctx);
+    }
+}
+
 /// VirtIOInput::pop_pending_event: each completed event buffer is delivered once, in used-ring order,
 /// with the device's bytes, and immediately re-posted.
 fn input_events(ctx: &mut Ctx, features: u64, nevents: usize) {
-    hal::reset();
-    virtio_drivers::verif::set_observer(None);
-    let mut ts = TState::new(DeviceType::Input, features, 2, 32);
-    ts.config = vec![0u8; 256];
-    let (t, st) = ModelTransport::new(ts);
-    let r = catch_unwind(AssertUnwindSafe(move || VirtIOInput::<LedgerHal, ModelTransport>::new(t)));
-    let mut input = match r { Ok(Ok(i)) => i, _ => { ctx.tr.line(1951, &[0, 0, 0, 0, 0], &[1]); return; } };
-    let qi = st.borrow().queues[0];
-    let a = QAddr { desc: qi.desc, drv: qi.drv, dev: qi.dev, size: 32 };
+    // the suppression words the device sets before the driver first asks whether to notify
+    let uf0 = ctx.rng.below(2) as u16;
+    let ae0 = match ctx.rng.below(3) { 0 => 0, 1 => 31 + ctx.rng.below(3) as u16, _ => ctx.rng.boundary(16) as u16 };
+    let mut rig = match InRig::new(ctx, features, uf0, ae0) { Some(r) => r, None => { ctx.tr.line(1951, &[0, 0, 0, 0, 0], &[1]); return; } };
+    let a = rig.a;
     let mut dev = ODev { a, seen: 0, used: 0, fetched: vec![] };
     let mut expect: Vec<Vec<u8>> = vec![];
     let mut done = 0;
@@ -161,31 +356,76 @@ fn input_events(ctx: &mut Ctx, features: u64, nevents: usize) {
             if dev.fetched.is_empty() { break; }
             let k = ctx.rng.below(dev.fetched.len() as u64) as usize;
             let data = ctx.rng.bytes(8);
-            dev.complete(k, &data, 8);
-            expect.push(data);
+            // mostly whole events. In a quarter of the completions the device records another length: shorter (0, 4, 7, ...: it
+            // then writes only that many bytes, the tail of the buffer stays as the platform prepared it - zero in a fresh bounce
+            // buffer) or longer than the buffer (9, 2^32-1). The driver ignores the recorded length: whatever it is, the event
+            // handed out is the 8 bytes the buffer holds, and the buffer is posted again under its token.
+            let (wlen, claimed): (usize, u32) = if ctx.rng.chance(1, 4) {
+                match ctx.rng.below(6) { 0 => (0, 0), 1 => (4, 4), 2 => (7, 7), 3 => (8, 9), 4 => (8, 0xffff_ffff), _ => { let l = ctx.rng.below(8) as usize; (l, l as u32) } }
+            } else { (8, 8) };
+            let baddr = read_desc(&a, dev.fetched[k] as usize & 31).map(|d| d.0).unwrap_or(0);
+            dev.complete(k, &data[..wlen], claimed);
+            if claimed < 8 { ctx.tr.note("input_short_length"); } else if claimed > 8 { ctx.tr.note("input_long_length"); }
+            expect.push(hal::dev_read(baddr, 8).unwrap_or(data));
         }
+        if ctx.rng.chance(1, 5) { // suppression data changes
+            hal::dev_write_u16(a.dev + 4 + 8 * 32, if ctx.rng.chance(1, 2) { hal::dev_read_u16(a.drv + 2).unwrap().wrapping_sub(ctx.rng.below(3) as u16).wrapping_add(1) } else { ctx.rng.boundary(16) as u16 }).unwrap();
+            hal::dev_write_u16(a.dev, ctx.rng.below(2) as u16).unwrap();
+        }
+        if ctx.rng.chance(1, 40) { rig.query(ctx); }
         let polls = 1 + ctx.rng.below(40) as usize;
         for _ in 0..polls {
-            let r = { let input = &mut input; catch_unwind(AssertUnwindSafe(move || input.pop_pending_event())) };
+            let r = rig.poll(ctx);
             dev.fetch();
-            let posted = dev.posted() as u128 + expect.len() as u128 - if matches!(r, Ok(Some(_))) && !expect.is_empty() { 1 } else { 0 };
+            let posted = dev.posted() as u128 + expect.len() as u128 - if matches!(r, InPoll::Event(_)) && !expect.is_empty() { 1 } else { 0 };
             match r {
-                Ok(Some(ev)) => {
-                    let bytes: Vec<u8> = [ev.event_type.to_le_bytes().to_vec(), ev.code.to_le_bytes().to_vec(), ev.value.to_le_bytes().to_vec()].concat();
-                    let ok = !expect.is_empty() && expect[0] == bytes;
+                InPoll::Event(bytes) => {
+                    let ok = !expect.is_empty() && expect[0][..] == bytes[..];
                     if !expect.is_empty() { expect.remove(0); }
                     // [kind; posted; expected_posted; bytes_ok; had_pending]
                     ctx.tr.line(1951, &[1, posted, 32, ok as u128, 1], &[1]);
                     done += 1; ctx.tr.note("input_event_delivered");
                 }
-                Ok(None) => { ctx.tr.line(1951, &[2, posted, 32, 1, (!expect.is_empty()) as u128], &[1]); ctx.tr.note("input_poll_empty"); }
-                Err(_) => { ctx.tr.line(1951, &[3, posted, 32, 0, 0], &[1]); done = nevents; break; }
+                InPoll::Nothing => { ctx.tr.line(1951, &[2, posted, 32, 1, (!expect.is_empty()) as u128], &[1]); ctx.tr.note("input_poll_empty"); }
+                InPoll::Panicked => { ctx.tr.line(1951, &[3, posted, 32, 0, 0], &[1]); done = nevents; break; }
             }
         }
         if done == done_before { idle_rounds += 1; } else { idle_rounds = 0; }
     }
-    drop(input);
-    ledger_line(ctx);
+    rig.finish(ctx);
+}
+
+/// the same driver against a device that does not keep to the protocol: ids outside event_buf, with high bits set, never
+/// completed or completed twice, index jumps, arbitrary lengths. The model (line 1961) predicts every result; monitor 1970
+/// states the clauses of InputProofs.input_pop_stocked. The history ends at the first panic.
+pub fn input_wild(ctx: &mut Ctx, features: u64, nops: usize) {
+    let mut ops = 0;
+    // a panic ends a driver's life: the next one starts on a fresh device (line 1960 resets the model state)
+    while ops < nops {
+        let (uf0, ae0) = (ctx.rng.below(2) as u16, ctx.rng.boundary(16) as u16);
+        let mut rig = match InRig::new(ctx, features, uf0, ae0) { Some(r) => r, None => return };
+        let a = rig.a;
+        let mut used: u16 = 0;
+        while ops < nops {
+            ops += 1;
+            let uslot = (used as usize) & 31;
+            let id: u32 = match ctx.rng.below(64) { 0 => 32 + ctx.rng.below(8) as u32, 1 => ctx.rng.next() as u32, 2..=12 => ctx.rng.below(32) as u32 | ((ctx.rng.next() as u32) << 16), _ => ctx.rng.below(32) as u32 };
+            if (id & 0xffff) < 32 { if let Some(d) = read_desc(&a, id as usize & 31) { let _ = hal::dev_write(d.0, &ctx.rng.bytes(8)); } }
+            hal::dev_write_u32(a.dev + 4 + 8 * uslot as u64, id).unwrap();
+            hal::dev_write_u32(a.dev + 8 + 8 * uslot as u64, ctx.rng.boundary(32) as u32).unwrap();
+            // sometimes the index runs ahead of the entries written (stale slots are consumed later)
+            used = used.wrapping_add(1 + if ctx.rng.chance(1, 6) { ctx.rng.below(3) as u16 } else { 0 });
+            hal::dev_write_u16(a.dev + 2, used).unwrap();
+            if ctx.rng.chance(1, 4) { hal::dev_write_u16(a.dev + 4 + 8 * 32, ctx.rng.boundary(16) as u16).unwrap(); hal::dev_write_u16(a.dev, ctx.rng.below(2) as u16).unwrap(); }
+            let mut panicked = false;
+            for _ in 0..1 + ctx.rng.below(3) {
+                match rig.poll(ctx) { InPoll::Panicked => { panicked = true; ctx.tr.note("input_wild_panic"); break; } InPoll::Event(_) => ctx.tr.note("input_wild_event"), InPoll::Nothing => ctx.tr.note("input_wild_none") }
+            }
+            if panicked { break; }
+            if ctx.rng.chance(1, 30) { rig.query(ctx); }
+        }
+        rig.finish(ctx);
+    }
 }
 
 pub fn run(ctx: &mut Ctx) {
@@ -200,6 +440,7 @@ pub fn run(ctx: &mut Ctx) {
     }
     for (i, feats) in [0u64, 1 << 28, 1 << 29, (1 << 28) | (1 << 29) | (1 << 32)].iter().enumerate() {
         ctx.tr.scenario(&format!("c19-input-{}", i)); input_events(ctx, *feats, n * 2);
+        ctx.tr.scenario(&format!("c19-input-wild-{}", i)); input_wild(ctx, *feats, n);
     }
     if ctx.tier_thorough {
         // a real run across the 16-bit wrap: more than 65536 events on one queue and through the input driver
